@@ -487,10 +487,11 @@ def _direct(chk, obj):
 
 def judge_silent(chk, c, r, served, lines, meta, F):
     """never-silent and no-spurious-failure, judged directly on the implementation's output"""
+    import re
     words = (c['line'].split() or [''])
-    act = words[0]
+    act = re.match(r'[A-Za-z0-9_]*', c['line'].strip()).group(0)   # as cmd.Cmd.parseline cuts it
     used = served[:len(r['served'])]
-    if c['fam'] in ('names', 'single') and act in ('add', 'remove', 'shutdown', 'reload') and used and \
+    if c['fam'] in ('names', 'single') and act == words[0] and act in ('add', 'remove', 'shutdown', 'reload') and used and \
             (act in ('add', 'remove') or len(words) == 1):
         okc = {'add': {F['ALREADY_ADDED']}, 'shutdown': {F['SHUTDOWN_STATE']}}.get(act, set())
         if all(e[0] not in ('sock', 'proto') and (e[0] != 'fault' or e[1] in okc) for e in used) and r['status'] != 0:
@@ -499,6 +500,13 @@ def judge_silent(chk, c, r, served, lines, meta, F):
     ok_codes = {F['SUCCESS']}
     ok_codes |= {'start': {F['ALREADY_STARTED']}, 'stop': {F['NOT_RUNNING']}, 'add': {F['ALREADY_ADDED']},
                  'shutdown': {F['SHUTDOWN_STATE']}, 'restart': {F['ALREADY_STARTED'], F['NOT_RUNNING']}}.get(act, set())
+    # a transport error (socket.error / ProtocolError, 401 included) ends the command: nothing may be
+    # sent to the server after it (4ba7a04: the action used to be run a second time after a 401)
+    for k, e in enumerate(used):
+        if e[0] in ('sock', 'proto') and len(r['calls']) > k + 1 and act not in ('open', 'restart'):
+            _direct(chk, dict(meta, kind='the command went on calling the server after a transport error / HTTP %s '
+                              '(targets processed and reported twice)' % (e[1],), calls_after=r['calls'][k + 1:]))
+            break
     bad = [e for e in served[:len(r['served'])] if e[0] in ('sock', 'proto') or (e[0] == 'fault' and e[1] not in ok_codes)]
     if not bad:
         return
@@ -567,9 +575,30 @@ def run(chk, only=None):
 
 def _run(chk, wd, proved, only):
     if getattr(chk, 'proof_failure', None) and 'translator' in chk.proof_failure:
-        # the tables could not be regenerated: the model cannot be evaluated against this tree
+        # the tables could not be regenerated, so the model cannot be evaluated against this
+        # tree; the specification monitor (hand-written, CtlSpec.v) can still judge the
+        # implementation's own output: look for a concrete failing input
+        found = False
+        ok, _log = vlib.coq_make(['C20/CtlSpec.vo'])
+        if ok:
+            import c20_proxy as H
+            cs = Cases(chk)
+            gen_targets(cs, True)
+            gen_status(cs, True)
+            _t, _m, mon_terms, mon_metas, _d, stat_terms, stat_metas = run_cases(chk, cs.cases, wd)
+            mbad, _e = H.compare(vlib, IMPORTS, 'mon_case', 'monitor_ok', mon_terms, wd, 'mon', PREAMBLE)
+            for i in mbad[:5]:
+                found = True
+                chk.violation(dict(mon_metas[i], kind='the implementation violates the C20 specification monitor '
+                                   '(exit status / never silent / one expected result line per target)',
+                                   coq_case=mon_terms[i][:3000]))
+            sbad, _e = H.compare(vlib, IMPORTS, 'status_mon_case', 'status_monitor_ok', stat_terms, wd, 'stat', PREAMBLE)
+            for i in sbad[:5]:
+                found = True
+                chk.violation(dict(stat_metas[i], kind='status exits with a status other than the specified one'))
+            chk.coverage['evaluations'] = len(mon_terms) + len(stat_terms)
         chk.violation({'kind': 'translator rejected the current source (fail closed)', 'detail': chk.proof_failure},
-                      nofail=True)
+                      nofail=not (found or direct_failures(chk)))
         return
     if only is not None:
         cases, n_exh = only, len(only)
@@ -582,7 +611,7 @@ def _run(chk, wd, proved, only):
     for e in errs:
         chk.violation({'kind': 'model evaluation failed', 'error': e}, nofail=True)
     # 2. specification monitor on the implementation's own output
-    mbad, merrs = H.compare(vlib, IMPORTS, 'mon_case', 'monitor_ok_or_known', mon_terms, wd, 'mon', PREAMBLE)
+    mbad, merrs = H.compare(vlib, IMPORTS, 'mon_case', 'monitor_ok', mon_terms, wd, 'mon', PREAMBLE)
     for e in merrs:
         chk.violation({'kind': 'monitor evaluation failed', 'error': e}, nofail=True)
     for i in mbad[:5]:
@@ -610,21 +639,7 @@ def _run(chk, wd, proved, only):
                                            'than the implementation on this command line and server script'),
                           nofail=not (mbad or sbad or direct_failures(chk)))
             shown += 1
-    # known finding C20-unknown-code: counted on the implementation's behaviour
-    known = 0
-    for m in metas:
-        ls = m['printed']
-        if m['family'] in ('targets', 'restart', 'midcommand', 'random', 'random-hostile', 'corpus') and \
-                any('Unknown result code' in x and x.startswith("error: <class 'ValueError'>") for x in ls):
-            words = m['line'].split()
-            if len(words) >= 3:
-                known += 1
-    if known:
-        chk.known_finding('C20-unknown-code',
-                          'start/stop/signal/clear/restart with several targets: a fault code outside the action\'s wording '
-                          'table for one target ends the whole command with one "error: ... Unknown result code" line, exit 1, '
-                          'and the remaining targets are neither processed nor reported; %d such runs explored, all agree '
-                          'with the model' % known)
+    known = 0   # no known finding is left for C20 (822c50e, b349796, 4ba7a04)
     if not proved:
         chk.violation({'kind': 'proof obligation no longer checks', 'detail': chk.proof_failure,
                        'file': 'coq/props/C20.v'}, nofail=not [v for v in chk.violations if not v[1]])
